@@ -374,6 +374,83 @@ theorem step_ok (ops : Ops V) (r : Rep V) (m : Msg V) (h : Inv r) :
     · left; rw [tombed_viewOf]; exact hkeep
     · right; simp [kindOf, hexp]
 
+/-! ### delivered tombstones are recorded -/
+
+/-- the keys whose tombstone message `m` delivers to replica `r` (peer tombstones issued by `r`
+    itself are ignored by handleProtoTombstone: the local delete already recorded them) -/
+def deliveredOf (r : Rep V) : Msg V → List Nat
+  | .delete k _ => [k]
+  | .tombstone t => if t.deletedBy = r.nodeID then [] else [t.key]
+  | .batch sameDC _ ts => if sameDC then [] else (ts.filter fun t => t.deletedBy != r.nodeID).map (·.key)
+  | _ => []
+
+theorem handleTomb_records (r : Rep V) (t : TombMsg) (h : t.deletedBy ≠ r.nodeID) :
+    ahas (handleTomb r t).tombs t.key = true := by
+  unfold handleTomb
+  simp only [h, ↓reduceIte]
+  rw [ahas_aset]; simp
+
+theorem foldl_tomb_nodeID (ts : List TombMsg) (r : Rep V) : (ts.foldl handleTomb r).nodeID = r.nodeID := by
+  induction ts generalizing r with
+  | nil => rfl
+  | cons t ts ih => exact (ih _).trans (handleTomb_ttl r t).2
+
+theorem foldl_tomb_records (ts : List TombMsg) (r : Rep V) (t : TombMsg) (ht : t ∈ ts)
+    (h : t.deletedBy ≠ r.nodeID) : ahas (ts.foldl handleTomb r).tombs t.key = true := by
+  induction ts generalizing r with
+  | nil => cases ht
+  | cons a ts ih =>
+    simp only [List.foldl_cons]
+    rcases List.mem_cons.mp ht with rfl | hmem
+    · exact foldl_tomb_keeps ts _ _ (handleTomb_records r t h)
+    · exact ih _ hmem (by rw [(handleTomb_ttl r a).2]; exact h)
+
+theorem foldl_delta_nodeID (ops : Ops V) (ds : List (DeltaMsg V)) (r : Rep V) :
+    (ds.foldl (handleDelta ops) r).nodeID = r.nodeID := by
+  induction ds generalizing r with
+  | nil => rfl
+  | cons d ds ih => exact (ih _).trans (handleDelta_tombs ops r d).2.2
+
+/-- (d): every tombstone a message delivers is recorded, for a key the replica knows or not -/
+theorem step_records (ops : Ops V) (r : Rep V) (m : Msg V) :
+    recordOK (viewOf (step ops r m).1) (deliveredOf r m) = true := by
+  unfold recordOK
+  rw [List.all_eq_true]
+  intro k hk
+  rw [tombed_viewOf]
+  cases m with
+  | delete k' now =>
+    simp only [deliveredOf, List.mem_singleton] at hk
+    subst hk
+    simp only [step, handleDelete]
+    rw [ahas_aset]; simp
+  | tombstone t =>
+    simp only [deliveredOf] at hk
+    split at hk
+    · cases hk
+    · rename_i hne
+      simp only [List.mem_singleton] at hk
+      subst hk
+      exact handleTomb_records r t hne
+  | batch sameDC ds ts =>
+    simp only [deliveredOf] at hk
+    split at hk
+    · cases hk
+    · rename_i hdc
+      obtain ⟨t, htm, rfl⟩ := List.mem_map.mp hk
+      have hf := List.mem_filter.mp htm
+      simp only [step, hdc, Bool.false_eq_true, ↓reduceIte]
+      apply foldl_tomb_records ts _ t hf.1
+      rw [foldl_delta_nodeID]
+      simpa using hf.2
+  | update _ _ _ _ => cases hk
+  | get _ _ => cases hk
+  | delta _ => cases hk
+  | fullState _ => cases hk
+  | digest _ => cases hk
+  | readReq _ => cases hk
+  | prune _ => cases hk
+
 /-! ### reachable states and the full statement -/
 
 /-- states reachable from a fresh replicator by messages satisfying `P` -/
@@ -383,9 +460,11 @@ inductive Reach (ops : Ops V) (P : Msg V → Bool) : Rep V → Prop where
 
 /-- the property at one reachable state `r`, for the next message `m`:
     every tombstoned key is absent from the store, a read of it answers nothing,
-    and it stays tombstoned unless `m` is a prune tick past its expiry -/
+    it stays tombstoned unless `m` is a prune tick past its expiry, and every tombstone `m` delivers
+    is recorded ("has received the tombstone" ⇒ the key is tombstoned) -/
 def holdsAt (ops : Ops V) (r : Rep V) (m : Msg V) : Prop :=
   stepOK r.ttl (viewOf r) (viewOf (step ops r m).1) (kindOf m (step ops r m).2) = true
+  ∧ recordOK (viewOf (step ops r m).1) (deliveredOf r m) = true
 
 /-- The full statement: for every CRDT value type and operations, every sequence of messages of
     every kind (any interleaving of updates, deletes, deltas, tombstones, digests, full states,
@@ -402,7 +481,7 @@ theorem reach_inv (ops : Ops V) (P : Msg V → Bool) (r : Rep V) (h : Reach ops 
 
 theorem C41_holds : C41_full := by
   intro V ops r m hr
-  exact step_ok ops r m (reach_inv ops _ r hr)
+  exact ⟨step_ok ops r m (reach_inv ops _ r hr), step_records ops r m⟩
 
 /-- values are naturals merged by `max` -/
 def natOps : Ops Nat := ⟨Nat.max, fun v => some v, id, id⟩
